@@ -104,6 +104,14 @@ type env struct {
 	ts  *testobj.TestStruct
 }
 
+// freshObjects replaces the destination and source objects (every job works on
+// its own copies: results alias context buffers and must be consumed before the
+// context is reused).
+func (e *env) freshObjects() {
+	n := newEnv()
+	e.obj, e.st, e.ts = n.obj, n.st, n.ts
+}
+
 func newEnv() *env {
 	return &env{
 		ctx: decoder.NewCtx(),
@@ -179,6 +187,7 @@ func (e *env) runJob(j *Job) (Obs, string, error) {
 		return o, "", fmt.Errorf("program rejected by Parse: %v\n%s", perr, j.Prog)
 	}
 	dump := decoder.VerifDumpTree(tree)
+	e.freshObjects()
 	ctx := e.ctx
 	ctx.Reset()
 	if !j.NoObj {
